@@ -385,4 +385,10 @@ def _f_c02_a(case, detail):
     return False
 
 
-EXCLUSIONS = {'F-C02-a': _f_c02_a}
+def _f_c02_i(case, detail):
+    """a verbose (?x) pattern that contains newlines or tabs: the generated source writes them as escapes"""
+    rules, _, _, _ = _norm(case)
+    return any(e[0] == 'pat' and '(?x' in e[1] and any(c in e[1] for c in '\n\r\t\v\f') for _, x in rules for e in walk(x))
+
+
+EXCLUSIONS = {'F-C02-a': _f_c02_a, 'F-C02-i': _f_c02_i}
